@@ -242,6 +242,7 @@ func (pf *pathFacts) boolCond(m func(ssa.Value) bool, want bool) bool {
 type rdRoles struct {
 	T                string // detector type
 	check, accept    *ssa.Function
+	ctor             *ssa.Function
 	wrapped          bool
 	bit, setBit, lsh *ssa.Function
 	// field roles (resolved by type and by what the constructor stores, not by name)
@@ -292,6 +293,7 @@ func resolveDetFields(p *Prog, tn string, d *rdRoles) []string {
 			}
 		}
 	}
+	d.ctor = ctor
 	if ctor != nil {
 		instrsOfU(ctor, func(in ssa.Instruction) {
 			if s, ok := in.(*ssa.Store); ok {
@@ -391,6 +393,36 @@ func replayRules(c *Ctx, which string) {
 		seq := linSym(d.check.Params[1].Name())
 		L, M, W := linSym(D+"."+d.latest), linSym(D+"."+d.max), linSym(D+"."+d.window)
 
+		if d.ctor != nil {
+			// the constructor keeps what it is given: the window size stored and the width of the mask are the window
+			// parameter itself, the maximum is the maximum parameter (a size adjusted "because a wider one cannot be
+			// used" changes which numbers at the window's edge are accepted)
+			o := c.Obl("R9", fname(d.ctor), "the constructor stores the window size and the maximum it is given, unchanged, and creates the mask with that window size", 2)
+			isParam := func(v ssa.Value) bool {
+				prm, ok := strip(origin(strip(v))).(*ssa.Parameter)
+				return ok && prm.Parent() == d.ctor
+			}
+			instrsOfU(d.ctor, func(in ssa.Instruction) {
+				switch x := in.(type) {
+				case *ssa.Store:
+					fr, ok := asFieldAddr(x.Addr)
+					if !ok || fr.SName != d.T || (fr.Field != d.window && fr.Field != d.max) {
+						return
+					}
+					o.Site(in.Pos(), "%s := %s", fr.Field, x.Val.Name())
+					if !isParam(x.Val) {
+						o.Fail(in.Pos(), "the constructor stores a %s that is not the value it was given (adjusted, clamped or computed)", fr.Field)
+					}
+				case *ssa.Call:
+					if sc := x.Call.StaticCallee(); sc != nil && sc.Name() == "newFixedBigInt" && len(x.Call.Args) == 1 {
+						o.Site(in.Pos(), "mask of width %s", x.Call.Args[0].Name())
+						if !isParam(x.Call.Args[0]) {
+							o.Fail(in.Pos(), "the mask is not created with the window size the constructor was given")
+						}
+					}
+				}
+			})
+		}
 		if which == "C05" || which == "C04" {
 			// C05.R1 purity of Check
 			o := c.Obl("R1p", fname(d.check), "Check (outside the accept closure) writes no field of the detector: a check whose callback is never invoked has no effect on any later answer", 1)
@@ -1039,6 +1071,11 @@ func lshTerms(c *Ctx, lsh *ssa.Function, bitsField, msbField string) {
 			sort.Strings(gs)
 			sort.Strings(ws)
 			o.Site(st.Pos(), "word %s := %s", I, strings.Join(gs, " | "))
+			if len(gs) == 0 && len(ws) == 0 && !holds(q.add(I, -1)) {
+				// nothing is shifted into the word: right only where the source word i-q does not exist (i < q)
+				fail(st.Pos(), "Lsh clears word %s on a path that has not established that its source word i-q lies below the array (i < q): bits of numbers still inside the window are wiped", I)
+				continue
+			}
 			if strings.Join(gs, "|") != strings.Join(ws, "|") {
 				fail(st.Pos(), "Lsh writes %s into word %s; on this path the shift by n = 64q+r requires %s (bits of accepted numbers are lost or stale bits survive)", strings.Join(gs, " | "), I, strings.Join(ws, " | "))
 			}
